@@ -256,5 +256,18 @@ Definition qc (a : Q) : Qc := Q2Qc a.
 Definition qv (l : list Q) : vec := map Q2Qc l.
 Definition qm (l : list (list Q)) : list vec := map qv l.
 Definition qo (o : option Q) : option Qc := option_map Q2Qc o.
+(* one correspondence case: both variants of the model against what the two implementations returned *)
+Definition mkcfg (ad rn : option Q) (o2 : bool) (tl atl : Q) (mi mx : option nat) (raise : bool)
+                 (ep tn : Q) : cfg :=
+  {| absdelta := qo ad; resnorm := qo rn; ord2 := o2; tol := qc tl; atol := qc atl;
+     miniter_o := mi; maxiter_o := mx; raise_npd := raise; nreset := 20; eps := qc ep; tiny := qc tn;
+     old_fallback := false; old_guards := false |}.
+Definition chk (n : nat) (M : list (list Q)) (j : list Q) (x0 : option (list Q)) (c : cfg) (tolx : Q) (fuel : nat)
+               (fe : bool) (xe : list Q) (ie : Z) (ne : nat)
+               (fs : bool) (xs : list Q) (is_ : Z) (ns : nat) : bool :=
+  let mat := matvec n (qm M) in
+  outcome_matches n (qc tolx) (run_eager n mat (qv j) c (option_map qv x0)) fe (qv xe) ie ne &&
+  outcome_matches n (qc tolx) (run_static n mat (qv j) c fuel (option_map qv x0)) fs (qv xs) is_ ns.
+
 Definition quad_energy (n : nat) (M : list vec) (j x : vec) : Qc :=
   half * dot n x (matvec n M x) - dot n x j.
